@@ -100,6 +100,14 @@ class _Canon(ast.NodeTransformer):
             return ast.BinOp(left=node.args[0], op=ast.Pow(), right=node.args[1])
         if f == "np.abs":
             node.func = ast.Name(id="abs", ctx=ast.Load())
+        # equivalent numpy spellings: np.where(c) (one argument) == np.nonzero(c); np.flatnonzero(c) == np.nonzero(c)[0];
+        # np.sum(x, ..) == x.sum(..) is left alone (x may not be an ndarray)
+        if f == "np.where" and len(node.args) == 1 and not node.keywords:
+            node.func = parse("np.nonzero")
+        if f == "np.flatnonzero" and len(node.args) == 1 and not node.keywords:
+            return ast.Subscript(value=ast.Call(func=parse("np.nonzero"), args=node.args, keywords=[]), slice=ast.Constant(value=0), ctx=ast.Load())
+        if f in ("np.true_divide",) and len(node.args) == 2 and not node.keywords:
+            return ast.BinOp(left=node.args[0], op=ast.Div(), right=node.args[1])
         return node
 
 
